@@ -104,7 +104,7 @@ func tail(s []string, n int) []string {
 }
 
 // runDefault runs body once under the deterministic default schedule.
-func runDefault(body func()) *vsched.Exec {
+func runDefault(body func(), maxSteps int) *vsched.Exec {
 	defer func() {
 		if e := recover(); e != nil {
 			if ee, ok := e.(vsched.EngineError); ok {
@@ -113,5 +113,5 @@ func runDefault(body func()) *vsched.Exec {
 			panic(e)
 		}
 	}()
-	return vsched.Run(body, vsched.Options{})
+	return vsched.Run(body, vsched.Options{MaxSteps: maxSteps})
 }
